@@ -245,3 +245,50 @@ def rule_gate_closes_after_stage(chk, r, body_rx, acc_rx, floor):
                     else:
                         r.ok(cfg, key, where(body, writes[0]), "no need-more-bytes return follows the gate's assignment inside the gated stage")
         r.require(cfg, floor, "gated stages in byte-driven handlers")
+
+
+# ---------------------------------------------------------------------------
+# atomic check-then-act (used by C08 R4, C12 R5)
+# ---------------------------------------------------------------------------
+ATOMIC_RMW = ("fetch_add", "fetch_sub", "store", "fetch_or", "fetch_and", "fetch_max", "fetch_min")
+
+
+def rule_no_atomic_check_then_act(chk, r, path_rx, reviewed=None, floor_atomics=1):
+    """In the bodies matching path_rx: a read-modify-write (or store) of an atomic that is decided by a plain load() of the
+    same atomic earlier in the function is a lost-update window (two tasks both pass the load, both write) unless the update
+    validates itself (swap / compare_exchange / fetch_update) or is listed in `reviewed` ({(short body, field): reason})."""
+    reviewed = reviewed or {}
+    for cfg, prog in chk.configs():
+        n_atomic_ops = 0
+        for b in prog.bodies.values():
+            if "::tests" in b.path or not re.search(path_rx, strip_generics(b.path)):
+                continue
+            ops = [c for c in b.calls if "Atomic" in c.callee and c.name in ATOMIC_RMW + ("load", "swap", "compare_exchange", "compare_exchange_weak", "fetch_update")]
+            n_atomic_ops += len(ops)
+            loads = [c for c in ops if c.name == "load"]
+            for w in ops:
+                if w.name not in ATOMIC_RMW:
+                    continue
+                fld = w.recv()
+                deciding = None
+                for g in b.guards(w.blk, select_aware=False):
+                    a = g.atom
+                    srcs = []
+                    if a[0] == "cmp":
+                        srcs = [b.value_origin(a[2]), b.value_origin(a[3])]
+                    elif a[0] == "call":
+                        srcs = [("call", a[1])]
+                    for org in srcs:
+                        if org[0] == "call" and org[1].name == "load" and "Atomic" in org[1].callee and org[1].recv() == fld:
+                            deciding = org[1]
+                if deciding is None:
+                    continue
+                key = "%s|%s on %s decided by an earlier load" % (short(b.path), w.name, field_key(fld or "?"))
+                rk = (short(b.path), field_key(fld or "?"))
+                if rk in reviewed:
+                    r.ok(cfg, key, where(b, w.blk), "reviewed: " + reviewed[rk])
+                else:
+                    r.bad(cfg, key, where(b, w.blk), "%s(%s) is executed because a separate load() at %s returned a particular value; between the two another task can change the counter (both pass the check, both update): use the value returned by the read-modify-write itself, or compare_exchange / fetch_update" % (w.name, fld, deciding.sp.split("/")[-1]))
+        r.note("atomic operations inspected in %s: %d" % (cfg, n_atomic_ops))
+        if n_atomic_ops < floor_atomics:
+            r.bad(cfg, "floor|atomic operations", "-", "only %d atomic operations found in the scoped bodies (%d on the pinned tree): anchor moved" % (n_atomic_ops, floor_atomics))
